@@ -160,6 +160,8 @@ def val_eq(m, a, b):
                 c = b_or(c, b_and(val_eq(m, k, k2), elem_eq(m, v, v2)))
             r = b_and(r, c)
         return r
+    if isinstance(a, FreeSetV) and isinstance(b, FreeSetV):
+        raise Unsupported("equality of free sets")
     if isinstance(a, NDT) and isinstance(b, NDT):
         return b_and(i_cmp("eq", a.day, b.day), i_cmp("eq", a.sec, b.sec))
     if isinstance(a, NDate) and isinstance(b, NDate):
@@ -261,6 +263,30 @@ def _panic(m, c):
 
 @model("Arguments::new_const", "Arguments::new_v1", "Arguments::new_v1_formatted", "Arguments::new", "Arguments::from_str", "Arguments::from_str_nonconst")
 def _fmt_args(m, c):
+    a0 = m.strip(c.args[0])
+    if isinstance(a0, Opaque) and a0.tag == "bytes":
+        # compact template of newer rustc: <len><literal bytes> | 0xC0.. = next argument | 0x00 = end
+        b = a0.payload
+        fargs = []
+        if len(c.args) > 1:
+            try:
+                fargs = [m.strip(x) for x in as_list(m, c.args[1])]
+            except Unsupported:
+                fargs = []
+        parts, cur, i = [], "", 0
+        while i < len(b):
+            k = b[i]
+            if k == 0:
+                break
+            if k < 0x80:
+                cur += b[i + 1:i + 1 + k].decode("latin-1"); i += 1 + k
+            else:
+                parts.append(cur); cur = ""; i += 1
+                if k != 0xC0:      # explicit format spec bytes follow: skip conservatively
+                    while i < len(b) and b[i] >= 0x80:
+                        i += 1
+        parts.append(cur)
+        return Opaque("fmtargs", (parts, fargs))
     parts = []
     try:
         for p in as_list(m, c.args[0]):
@@ -1119,4 +1145,9 @@ def _intern_new(m, c):
 
 @model("Intern::as_ref")
 def _intern_as_ref(m, c):
+    return c.args[0]
+
+
+@model("must_use", "hint::must_use", "convert::identity", "identity", "hint::black_box")
+def _identity(m, c):
     return c.args[0]
